@@ -1,7 +1,10 @@
 package nitrocheck
 
 import (
+	"fmt"
 	"testing"
+
+	"github.com/couchbase/nitro"
 
 	"pgregory.net/rapid"
 
@@ -50,6 +53,36 @@ func TestC06(t *testing.T) {
 		acts["close_c"] = acts["close"]
 		acts["bulkput"] = w.bulkPut
 		acts["bulkdelete"] = w.bulkDelete
+		storms := 0
+		acts["storm"] = func(t *rapid.T) {
+			// many short-lived snapshots, each owning a little garbage, created and closed behind an older open
+			// snapshot: when that one is closed the collector has hundreds of lists to hand over in one pass
+			if storms >= 1 || len(w.OpenSnaps()) == 0 || len(w.OpenSnaps()) >= 8 {
+				t.Skip("no storm")
+			}
+			storms++
+			n := rapid.IntRange(150, 420).Draw(t, "stormlen")
+			wi := w.drawWriter(t)
+			w.quiet = true
+			for j := 0; j < n; j++ {
+				k := []byte(fmt.Sprintf("s%03d", j%7))
+				if w.cfg.KV {
+					k = nitro.KVToBytes(k, []byte("x"))
+				}
+				if w.live[w.cfg.keyOf(k)] != nil {
+					w.Delete(wi, k)
+				} else {
+					w.Put(wi, k)
+				}
+				w.NewSnapshot()
+				w.Close(len(w.snaps) - 1)
+			}
+			w.quiet = false
+			w.logf("storm(%d snapshots)", n)
+			if n > 256 {
+				w.flag("storm-over-256")
+			}
+		}
 		acts[""] = func(t *rapid.T) {
 			// precise: open snapshots intact; complete: statistics equal the model (settle ran inside the actions)
 			for _, i := range w.OpenSnaps() {
